@@ -163,6 +163,14 @@ def rule_o2(ctx):
                 o = r if l["k"] == "const" else l
                 paths = {tuple(x for x in p if x.startswith("as ") or x.isdigit()) for (rr, p) in conv.trace_operand(o)}
                 eqs.append((c, paths))
+    # the same test as a literal pattern (`BuilderGate::Xor(1, y) => ..`): an integer switch on the operand itself
+    for b in range(conv.n):
+        t = conv.term(b)
+        if t and t["k"] == "switch" and t["discr"]["k"] in ("copy", "move") and conv.switch_info(b) is None and not conv.blocks[b]["cleanup"] and \
+                conv.locals[t["discr"]["place"]["l"]]["ty"] not in ("bool", "isize"):
+            paths = {tuple(x for x in p if x.startswith("as ") or x.isdigit()) for (rr, p) in conv.trace_operand(t["discr"])}
+            for v, _ in t["targets"]:
+                eqs.append((v, paths))
     want = [(1, {("as Xor", "0")}), (1, {("as Xor", "1")})]
     for w in want:
         if w in eqs:
